@@ -904,6 +904,8 @@ def run_c17(rec, F):
     cache_key_injective(rec, F)
     export_gate(rec, F)
     once_only(rec, F)
+    from . import f9_cursor
+    f9_cursor.run(rec, F)   # the walk that finds which nested module is still missing
 
 
 def run_c18(rec, F):
